@@ -49,6 +49,7 @@ type Op struct {
 type Obs struct {
 	Rules   [][3]int `json:"rules"`   // id, stream, url - sorted by id
 	Clients [][2]int `json:"clients"` // id, url - sorted by id
+	Members []int    `json:"members"` // url of every client registered with the messages hub, sorted
 	Open    []int    `json:"open"`    // url, once per open connection, sorted
 	Recv    []int    `json:"recv"`    // urls the tagged broadcast of this op arrived at, sorted
 }
@@ -378,8 +379,12 @@ func (r *runner) probe(c *Case, s int, idx int) bool {
 			return false
 		}
 		want, also := []int{}, []int{}
+		live := r.live()
 		for m := range r.mh.Hub.Clients[topic] {
 			if hist, mode, u, ok := parseURL(m.Name); ok && hist == r.hist {
+				if _, isLive := live[u]; !isLive {
+					continue // a registration the rwc hub no longer owns: nothing to wait for
+				}
 				if mode == "up" {
 					want = append(want, u)
 				} else if mode != "down" {
@@ -414,6 +419,7 @@ func (r *runner) probe(c *Case, s int, idx int) bool {
 		c.Retries++
 		wait *= 2
 	}
+	c.Stalled = true // a destination that is up and registered never got the message: cut the history here
 	return true
 }
 
@@ -472,7 +478,7 @@ func runHistory(c *Case) {
 			break
 		}
 		settled := r.settle(newU, atLeast)
-		ob := Obs{Rules: [][3]int{}, Clients: [][2]int{}, Open: []int{}, Recv: []int{}}
+		ob := Obs{Rules: [][3]int{}, Clients: [][2]int{}, Members: []int{}, Open: []int{}, Recv: []int{}}
 		for id, ru := range r.h.Rules {
 			u := 9999
 			if hh, _, uu, ok := parseURL(ru.Destination); ok && hh == hist {
@@ -492,6 +498,16 @@ func runHistory(c *Case) {
 			ob.Clients = append(ob.Clients, [2]int{idNumber(id), u})
 		}
 		sort.Slice(ob.Clients, func(a, b int) bool { return ob.Clients[a][0] < ob.Clients[b][0] })
+		for _, set := range []map[*hub.Client]bool{r.mh.Hub.Clients["data"], r.mh.Streams["stream/a"], r.mh.Streams["stream/b"]} {
+			for m := range set {
+				u := 9999
+				if hh, _, uu, ok := parseURL(m.Name); ok && hh == hist {
+					u = uu
+				}
+				ob.Members = append(ob.Members, u)
+			}
+		}
+		sort.Ints(ob.Members)
 		sn := snapshot(hist)
 		for u, k := range sn.open {
 			for j := 0; j < k; j++ {
@@ -503,6 +519,8 @@ func runHistory(c *Case) {
 		n++
 		if !settled {
 			c.Stalled = true
+		}
+		if c.Stalled {
 			break
 		}
 	}
@@ -583,7 +601,7 @@ func (c Case) coq() string {
 		for j, x := range b.Clients {
 			cs[j] = lib.Tuple(lib.N(uint64(x[0])), lib.N(uint64(x[1])))
 		}
-		obs[i] = lib.App("mkobs", lib.List(rs), lib.List(cs), ns(b.Open), ns(b.Recv))
+		obs[i] = lib.App("mkobs", lib.List(rs), lib.List(cs), ns(b.Members), ns(b.Open), ns(b.Recv))
 	}
 	return lib.Tuple(lib.List(ops), lib.List(obs), ns(c.reliable()))
 }
@@ -727,6 +745,22 @@ func oracle(c Case, idx int, res *lib.Result) {
 		}
 		if !same {
 			bad("listing-not-adds-minus-deletes", o.K, fmt.Sprintf("op %d (%s): listing (id,stream,url) %v, the history says %v; history: %s", i, o.String(), ob.Rules, curr, hist(i)))
+		}
+		// what is registered with the messages hub: one client per current rule, nothing else
+		seenM := map[int]int{}
+		for _, u := range ob.Members {
+			seenM[u]++
+			id := owner[u]
+			if cu, ok := curr[id]; !ok || cu.u != u || seenM[u] > 1 {
+				bad("superseded-client-still-registered", "after-"+last,
+					fmt.Sprintf("op %d (%s): a client for u%d (made for %s) is still registered with the messages hub although its rule was replaced or deleted; history: %s", i, o.String(), u, idName(id), hist(i)))
+			}
+		}
+		for id, cu := range curr {
+			if seenM[cu.u] == 0 {
+				bad("live-rule-not-registered", "after-"+last,
+					fmt.Sprintf("op %d (%s): rule %s -> u%d has no client registered with the messages hub; history: %s", i, o.String(), idName(id), cu.u, hist(i)))
+			}
 		}
 		// at most one live connection per id, and only to the destination of the latest rule
 		perID := map[int]int{}
